@@ -200,8 +200,11 @@ class Gen:
             c = r.random()
             if c < 0.55:
                 start = ['now']
+            elif self.float_times and first and c < 0.8:
+                # dates that are inexact in binary: `at=` must be hit exactly, not via now + (at - now)
+                start = ['at', max(self.date(), self.start)]
             elif c < 0.9 or not first:
-                start = ['after', r.choice([0, 1, 1, 2, 3])]
+                start = ['after', r.choice([0, 0.1, 0.7, 1.1]) if self.float_times else r.choice([0, 1, 1, 2, 3])]
             else:
                 start = ['at', self.start + r.choice([0, 1, 2, 3])]
             body = self.block(self.body_len(), self.sub(ctx, scopes=[scname], intask=True))
